@@ -2,6 +2,7 @@
 # seeded_run.sh [id-pattern]: applies every seeded change to a scratch copy of /repo (never to /repo), runs the quick check of
 # the property it breaks with VERIF_REPO_ROOT pointing at the copy, and prints caught / MISSED per change.
 cd "$(dirname "$(readlink -f "$0")")/.."
+ROOT=$(pwd)
 PAT=${1:-.}
 fail=0
 for d in seeded/*/; do
@@ -10,7 +11,7 @@ for d in seeded/*/; do
   prop=$(python3 -c "import json;print(json.load(open('$d/meta.json'))['breaks_property'])")
   W=$(mktemp -d /tmp/seedrun.XXXXXX)
   git -C /repo archive HEAD | tar -x -C "$W"
-  if ! (cd "$W" && git init -q . >/dev/null 2>&1 && git apply --whitespace=nowarn "$PWD/$d/patch.diff"); then echo "$id $prop PATCH-DOES-NOT-APPLY"; rm -rf "$W"; fail=1; continue; fi
+  if ! (cd "$W" && git init -q . >/dev/null 2>&1 && git apply --whitespace=nowarn "$ROOT/$d/patch.diff"); then echo "$id $prop PATCH-DOES-NOT-APPLY"; rm -rf "$W"; fail=1; continue; fi
   out=$(VERIF_REPO_ROOT="$W" VERIF_EVIDENCE_DIR="$W/evidence" python3 tools/check.py "$prop" --tier quick 2>&1); rc=$?
   sig=$(echo "$out" | grep -m1 "signature:" | sed 's/ *signature: //')
   if [ $rc -eq 1 ]; then echo "$id $prop caught ($sig)"; else echo "$id $prop MISSED (exit $rc)"; fail=1; fi
